@@ -56,16 +56,18 @@ CLAIMED["C05"] = dict(
          "data program (constants, MARK/POP/POP_MARK/DUP, tuples, lists, dicts, sets, frozensets, APPEND(S), "
          "SETITEM(S), ADDITEMS, memo PUT/GET/MEMOIZE, PROTO/FRAME, STOP; any length, nesting, sharing) whose VM "
          "value is acyclic, evaluating the decompiled program succeeds, logs nothing and its result unfolds to "
-         "the same tree as the VM's value; C05_eval_agrees_partial -- with GLOBAL/STACK_GLOBAL/INST/OBJ/NEWOBJ/"
-         "REDUCE/BINPERSID/BUILD/SETITEM/SETITEMS on objects the evaluated program's event log equals the VM's (same "
+         "the same tree as the VM's value; C05_eval_agrees -- with GLOBAL/STACK_GLOBAL/INST/OBJ/NEWOBJ/"
+         "NEWOBJ_EX (keyword arguments included)/REDUCE/BINPERSID and BUILD/SETITEM/SETITEMS on objects or on a "
+         "global itself the evaluated program's event log equals the VM's (same "
          "imports, callee, arguments, persistent ids, applied state, item assignments, order, object numbering) "
          "and the result unfolds to the same tree, under the boolean side conditions defined_before_use (D15) and "
          "distinct_attr_names (D14); C05_vm_wellformed (hashability invariant of the VM). Tie: the extracted "
          "evaluator applied to the model's decompilation vs exec(ast.unparse(Pickled.load(data).ast)) under inert "
          "stand-ins (value + event log, literal comparison) on the whole C05 corpus, plus the differential "
          "property oracle and exec(result) == original object for plain data at protocols 0-5.",
-    note=BASE_NOTE + "Partial: C05_eval_agrees_partial does not cover "
-         "NEWOBJ_EX keyword arguments and BUILD/SETITEM(S) applied to a global itself (differential tie only); "
+    note=BASE_NOTE + "C05_eval_agrees holds under the two boolean side conditions that stand for findings D15 and "
+         "D14 (their necessity is shown by the two ..._refuted_without_... witnesses); the `keywords must be strings` "
+         "check of a ** call is idealised away in RefVM and PyEval alike; "
          "observational equality compares sets/dicts by insertion history and loses sharing between displays "
          "(tree equality of final values); Python's expression semantics is modelled (PyEval.v), tied by the "
          "differential check, not verified against CPython. Known findings D14 (same attribute name), D15 "
